@@ -11,6 +11,7 @@ def stress_phase(scenario, tier, res, broken, seed=0):
         'closeonce':   [(2, 150, 32), (4, 150, 32)] + ([(2, 4000, 64), (3, 3000, 64), (4, 3000, 64), (8, 1000, 32)] if deep else []),
         'cloneshared': [(2, 150, 50), (4, 150, 50)] + ([(2, 4000, 100), (3, 3000, 100), (4, 3000, 100), (8, 1000, 50)] if deep else []),
         'recordshared': [(2, 60), (4, 60)] + ([(2, 1500), (3, 1500), (4, 1500), (8, 500)] if deep else []),
+        'reloadbusy': [(40,)] + ([(1500,)] if deep else []),
     }[scenario]
     cases = ['%s %s' % (scenario, ' '.join(str(x) for x in p)) for p in params]
     outs, err = M.run_per_process([M.bin_path('h_stress')], cases, timeout=300)
@@ -18,7 +19,7 @@ def stress_phase(scenario, tier, res, broken, seed=0):
         res.errors.append('stress %s: %s' % (scenario, err)); return
     for c, o in zip(cases, outs):
         res.evaluations += 1
-        k = 'stress %s threads=%s' % (scenario, c.split()[1])
+        k = 'stress %s %s=%s' % (scenario, 'rounds' if scenario == 'reloadbusy' else 'threads', c.split()[1])
         res.hist[k] = res.hist.get(k, 0) + 1
         if o.startswith('ok '):
             res.nontrivial.add('stress ' + c)
